@@ -643,8 +643,123 @@ def cubes(iset, tier):
     return out
 
 
+def jstate_unit(tbit, memarch='PMSA', nregions=1):
+    """A step that starts with CPSR.J == 1 (Jazelle state when T == 0, ThumbEE state when T == 1).  The emulator executes
+    neither: its fetch reads nothing and the step ends in the Undefined Instruction exception.  The uniform obligations hold for
+    these states as for ARM and Thumb state (no host error, register ranges, privilege confinement, ownership), and the entry
+    taken is the architectural Undefined Instruction entry from the state the step started in."""
+    m = registry.mods()
+    A = m.arm_v6.ArmV6
+    Rg = m.registers.Registers
+    name = 'thumbee' if tbit else 'jazelle'
+    uid = 'STEP/%s/%s/any' % (name, memarch.lower())
+
+    def symbolic(eng):
+        mem = AM.AbsMem(eng)
+        fixed = {'cpsr': lambda e, lf: (e.fresh_int('cpsr', 32) & ~(1 << 5)) | (1 << 24) | (tbit << 5)}
+        mach = MC.SymMachine(eng, memarch, nregions, fixed=fixed, mem=mem)
+        cpu = mach.cpu
+        init = dict(mach.init)
+        cfg = mach.configs
+        cpsr0 = init['cpsr']
+        mode0 = bits(cpsr0, 4, 0)
+        eng.assume(lnot(ST.bad_mode(mode0, cfg['have_security_ext'], cfg['have_virt_ext'])))
+        eng.assume(bits(init['R.PC'], 0, 0) == 0)
+        it0_ = ST.cpsr_field(cpsr0, 'it')
+        eng.assume(implies(bits(it0_, 3, 0) == 0, it0_ == 0))
+        eng.assume(bits(cpsr0, 23, 20) == 0)
+        for nm in ('hvbar', 'mvbar', 'vbar'):
+            eng.assume(bits(init[nm], 4, 0) == 0)
+        eng.assume(bits(init['mpuir'], 15, 8) <= nregions)
+        if not eng.prefix:
+            eng.cover('ValidState with CPSR.J == 1 satisfiable')
+        events = eng.register([])
+        contracts = dict(all_contracts())
+        for nm in ('take_svc_exception', 'take_smc_exception', 'take_data_abort_exception', 'take_hyp_trap_exception',
+                   'take_undef_instr_exception'):
+            fn = getattr(Rg, nm)
+
+            def mk(fn, nm):
+                def spec(e, *a):
+                    events.append(nm)
+                    return e.run_function(fn, list(a), {})
+                return Contract(fn, spec, engine=True)
+            contracts[fn] = mk(fn, nm)
+        eng.contracts = contracts
+        tag = 'step in %s state' % ('ThumbEE' if tbit else 'Jazelle')
+        try:
+            eng.call(A.emulate_cycle, [cpu])
+        except PyRaise as r:
+            ob = eng.oblige('safe.host', '%s raises %s' % (tag, r.exc.cls.__name__), issubclass(r.exc.cls, NotImplementedError),
+                            detail=str(r.exc.attrs.get('args')))
+            ob.props = ['C18']
+            return
+        ob = eng.oblige('safe.host', '%s completes or takes an architectural exception' % tag, True)
+        ob.props = ['C18']
+        final = mach.read()
+        rng = [land(v >= 0, v <= 0xFFFFFFFF) if sym.is_intlike(v) else False for k, v in final.items()
+               if k.startswith('R.') or k.startswith('spsr_') or k in ('cpsr', 'elr_hyp')]
+        ob = eng.oblige('inv.range', '%s: registers, SPSRs, PC in 0..2^32-1 after the step' % tag, land(*rng))
+        ob.props = ['C10']
+        ob = eng.oblige('frame', '%s: object graph shape unchanged' % tag, mach.shape_ok())
+        ob.props = ['C18']
+        ob = eng.oblige('frame.own', '%s: no write to an object outside the processor instance' % tag, not eng.foreign_writes,
+                        detail='; '.join(eng.foreign_writes[:4]))
+        ob.props = ['C20']
+        ob = eng.oblige('frame.own', '%s: no read of mutable state outside the processor instance' % tag, not eng.foreign_reads,
+                        detail='; '.join(sorted(eng.foreign_reads)[:4]))
+        ob.props = ['C20']
+        # the one outcome: Undefined Instruction exception, entered architecturally from the initial state
+        ob = eng.oblige('post.exc', '%s: the only outcome is the Undefined Instruction exception' % tag, events == ['take_undef_instr_exception'],
+                        detail=','.join(events))
+        ob.props = ['C18', 'C11']
+        if events == ['take_undef_instr_exception']:
+            exp = dict(init)
+            EXC.take_undef_instr(exp)
+            named = [(k, values_eq(v, exp[k])) for k, v in final.items() if k not in SCRATCH]
+            named.append(('mem', sym.SymBool(mem.term == mem.init)))
+            ob = eng.oblige_all('post', '%s: the Undefined Instruction entry is architectural (mode, LR, SPSR, masks, vector); nothing else changes' % tag, named)
+            ob.props = ['C11', 'C19', 'C08']
+            cpsr1 = final['cpsr']
+            m1 = bits(cpsr1, 4, 0)
+            ob = eng.oblige('safe.user', '%s: from User mode the step ends in Undefined mode with SPSR.M recording User' % tag,
+                            implies(mode0 == ST.USR, land(lor(m1 == ST.UND, m1 == ST.HYP), bits(ST.spsr_get(final, m1), 4, 0) == ST.USR)))
+            ob.props = ['C19']
+
+    def replay(inputs, ob):
+        cpu = MC.native_cpu(memarch, nregions, fresh=True)
+        ins = dict(inputs)
+        ins['cpsr'] = (ins.get('cpsr', 0) & ~(1 << 5)) | (1 << 24) | (tbit << 5)
+        MC.install_native(cpu, ins, memarch, nregions)
+        init = MC.read_native(cpu, memarch, nregions)
+        cfgs = registry.mods().configurations.configurations.configs
+        for k in MC.CFG_BOOL + list(MC.CFG_INT):
+            init['cfg.' + k] = cfgs.get(k)
+        import io
+        import contextlib
+        exc = None
+        try:
+            with contextlib.redirect_stdout(io.StringIO()):
+                cpu.emulate_cycle()
+        except Exception as e:      # noqa
+            exc = e
+        lines = ['cpsr=%s pc=%s mode=%s' % (hex(init['cpsr']), hex(init['R.PC']), hex(init['cpsr'] & 31))]
+        if exc is not None:
+            lines.append('emulate_cycle raised %s: %s' % (type(exc).__name__, exc))
+            return not isinstance(exc, NotImplementedError), '\n'.join(lines)
+        final = MC.read_native(cpu, memarch, nregions)
+        exp = dict(init)
+        EXC.take_undef_instr(exp)
+        diff = {k: (hex(final[k]) if isinstance(final[k], int) else final[k], hex(exp[k]) if isinstance(exp[k], int) else exp[k])
+                for k in final if k not in SCRATCH and k in exp and final[k] != exp[k]}
+        lines.append('leaf differences (real, architectural Undefined Instruction entry): %s' % diff)
+        return bool(diff), '\n'.join(lines)
+    return Unit(uid, ['C18', 'C10', 'C19', 'C20', 'C11', 'C08'], symbolic, replay,
+                {'contracts': {}, 'merge_calls': merge_set(), 'max_paths': 60000}, meta={'cube': 'any', 'iset': name})
+
+
 def units(tier):
-    out = []
+    out = [jstate_unit(0), jstate_unit(1)]
     for iset in ('arm', 'thumb16', 'thumb32'):
         for name, pred in cubes(iset, tier):
             out.append(make_unit(iset, name, pred))
